@@ -12,6 +12,10 @@
      `data_mut()`) to 0xA5, 0x5A, 0xC3, ... so that a write into them is visible.
      -> `d=<data() bytes> p=<pixel() over y = -1..=H, x = -1..=W, row-major; n = None>
          img=<pixel map left by drawing as_image() at the origin>`
+  fb.draw <bits> <order 0|1> <W> <H> <extra> <spec> <writes>
+     a real drawable drawn into a fresh framebuffer; the model receives it as the pixel sequence `writes`
+     (`x,y,c,x,y,c,..` | `-`) the drawable offers to a draw_iter-only target with the framebuffer's box
+     (recorded from the real code by the harness): `Fb.drawIter`. Same result line.
 -/
 import EG.Driver.Util
 import EG.Driver.Raw
@@ -63,6 +67,16 @@ def handleFb (stream : String) (t : Toks) : Option String :=
     let (h, t) := t.nat
     let (extra, t) := t.nat
     let fb := t.foldl (fun fb tok => fbOp fb (parseIntList tok)) (fbInit bits (orderOf o) w h extra)
+    some s!"d={fmtNats fb.data} p={fbGrid fb} img={fbImageMap fb}"
+  | "fb.draw" =>
+    let (bits, t) := t.nat
+    let (o, t) := t.nat
+    let (w, t) := t.nat
+    let (h, t) := t.nat
+    let (extra, t) := t.nat
+    let (_spec, t) := t.str
+    let (ws, _) := t.str
+    let fb := (fbInit bits (orderOf o) w h extra).drawIter (triples (parseIntList ws))
     some s!"d={fmtNats fb.data} p={fbGrid fb} img={fbImageMap fb}"
   | _ => none
 
